@@ -134,6 +134,10 @@ private:
     void pickNext(std::unique_lock<std::mutex> &lk, int me);
 };
 
+typedef void (*YieldInvariant)(World &, int);
+void registerYieldInvariant(YieldInvariant f);
+struct YieldInvariantRegistrar { YieldInvariantRegistrar(YieldInvariant f) { registerYieldInvariant(f); } };
+
 // Plan generation (gen.cpp + engines): prop decides engine, config and armed oracles
 Json genPlan(const std::string &prop, uint64_t seed, const std::string &tier);
 typedef Json (*PlanGenerator)(const std::string &prop, uint64_t seed, const std::string &tier);
